@@ -48,4 +48,17 @@ theorem mock_guarded_terminates (g : Graph) (path : List Str) (msg : Str) :
     ∃ k, mockAssignGuarded g path msg = Outcome.done k :=
   mockAssignGuarded_done g path msg
 
+/-- **termination is not enough**: on an acyclic response type whose levels each refer to the next
+one twice, the unguarded recursion emits a block per PATH: 2^(d+1) - 1 blocks for d levels
+(known finding `no_answer:go-http:mock_exponential_on_shared_types`: at 32 levels the plugin
+gives no answer within any practical time or memory). -/
+theorem mock_work_exponential :
+    mockWork (diamond 4) (2 ^ 40) [Char.ofNat 52] = 2 ^ 5 - 1 ∧
+    mockWork (diamond 10) (2 ^ 40) [Char.ofNat 58] = 2 ^ 11 - 1 := by decide
+
+/-- the same type graph visited with a visited set costs at most one visit per message
+(`collect_visits_once`), whatever its shape. -/
+theorem guarded_walk_no_repeat (d : Nat) (root : Str) : (collect (diamond d) [] [root]).Nodup :=
+  collect_nodup (diamond d) [root]
+
 end Sebuf.C16
